@@ -174,6 +174,11 @@ func verifReply(tag string) (data []byte, xid dhcpv4.TransactionID, op uint8, hw
 		ClientHWAddr:  net.HardwareAddr{2, 0, 0, 0, 0, hwLast},
 		Options:       dhcpv4.Options{53: []byte{mt}},
 	}
+	// hwLast == 0xee stands for a reply that carries NO hardware address at all (hlen 0): it is
+	// not for this client's hardware address either
+	if hwLast == 0xee {
+		p.ClientHWAddr = nil
+	}
 	return p.ToBytes(), xid, op, hwLast, mt
 }
 
